@@ -276,7 +276,11 @@ func (r *Registry) structSort(t types.Type, u *types.Struct) string {
 	for i := 0; i < u.NumFields(); i++ {
 		f := u.Field(i)
 		fs := r.sortOf(f.Type())
-		si.fields = append(si.fields, fieldInfo{name: f.Name(), acc: name + "." + sanitize(f.Name()), typ: f.Type(), sort: fs})
+		acc := name + "." + sanitize(f.Name())
+		if f.Name() == "_" {
+			acc = fmt.Sprintf("%s._%d", name, i)
+		}
+		si.fields = append(si.fields, fieldInfo{name: f.Name(), acc: acc, typ: f.Type(), sort: fs})
 	}
 	r.order = append(r.order, name) // after its dependencies
 	return name
